@@ -101,6 +101,11 @@ def continuousRelease (os : Sub) (wl : WL) : Bool :=
   os.canaryRev != "" && wl.canaryRev != os.canaryRev && !wl.inRollback
 
 open RV.RolloutSM in
+/-- the earlier branches of `doProgressingInRolling` do not apply: not paused, no rollback observed, no continuous release -/
+def rollingNormally (ro : Rollout) (os : Sub) (wl : WL) : Bool :=
+  !ro.paused && !continuousRelease os wl && !(wl.inRollback && wl.canaryRev != os.canaryRev)
+
+open RV.RolloutSM in
 /-- the waiting class of a Rollout world (`none`: the reconciler has work to do) -/
 def roAwaits (w : World) : Option RoWait :=
   match w.ro.phase with
@@ -116,6 +121,7 @@ def roAwaits (w : World) : Option RoWait :=
     | .paused, _, _ => if w.ro.paused then some .userUnpause else none
     | .inRolling, some s, some wl =>
       if w.ro.style = .blueGreen ∧ continuousRelease s wl then some .workloadChange
+      else if ¬ rollingNormally w.ro s wl then none     -- pause / rollback / continuous release are dispatched first: no resting there
       else match s.state with
         | .upgrade => some .brReport
         | .paused =>
